@@ -29,3 +29,8 @@ Proof. intros H. pose proof all_covered as A. rewrite forallb_forall in A. now a
     unchecked count once the body has run out) *)
 Lemma all_loops_guarded : forallb (fun g => loops_guarded (gm_dec g)) gen_msgs = true.
 Proof. vm_compute. reflexivity. Qed.
+
+(** the three places of the Go source the pool model (Codec/Pool.v) stands for have the modelled shape *)
+Lemma pool_facts :
+  gen_recv_buffer_exact = true /\ gen_rread_data_is_n = true /\ gen_cleanup_zeroes_before_put = true.
+Proof. repeat split; reflexivity. Qed.
